@@ -124,6 +124,12 @@ def gen_one(rng, tier, magic=False, hidden=False):
                       'root_by_arg': rng.random() < 0.5,
                       # the root spelled with a trailing separator
                       'trailing_sep': rng.random() < 0.2,
+                      # ... or in another non-normal form: through 'x/..',
+                      # with a doubled separator, with '/./' inside,
+                      # relative to the working directory ('name', './name')
+                      'spelling': rng.choice(
+                          [None, None, None, 'dotdot', 'double', 'slashdot',
+                           'relative', 'dot_relative']),
                       # a file appears in an existing (nested) directory
                       # between two populations by the same populator
                       'add_file': rng.random() < 0.25})
@@ -219,8 +225,10 @@ def _run(case, desper, res, tmp):
 
     class RecHandle(desper.Handle):
         def __init__(self, rule_index, path, args, kwargs):
-            self.rec = (rule_index, os.path.normpath(path), tuple(args),
-                        dict(kwargs))
+            # (any spelling of the file's path will do; a relative one
+            # is meant from the working directory of the population)
+            self.rec = (rule_index, os.path.normpath(os.path.abspath(path)),
+                        tuple(args), dict(kwargs))
 
         def load(self):
             return self.rec
@@ -262,13 +270,29 @@ def _run(case, desper, res, tmp):
             with open(target, 'w') as fout:
                 fout.write('x')
             res.tags['file_added_between_populations'].add(True)
+        plain_root = root
+        spelling = call.get('spelling')
+        parent, base = os.path.split(root)
+        if spelling == 'dotdot':
+            os.makedirs(os.path.join(parent, 'zz'), exist_ok=True)
+            root = os.path.join(parent, 'zz', os.pardir, base)
+        elif spelling == 'double':
+            root = parent + os.sep + os.sep + base
+        elif spelling == 'slashdot':
+            root = os.path.join(parent, os.curdir, base)
+        elif spelling == 'relative':
+            root = base
+        elif spelling == 'dot_relative':
+            root = os.path.join(os.curdir, base)
+        if spelling:
+            res.tags['root_spelling'].add(spelling)
         if call.get('trailing_sep'):
             root = root + os.sep
             res.tags['root_with_trailing_separator'].add(True)
         nest = case['ctor']['nest'] if call['nest'] is None else call['nest']
         trim = case['ctor']['trim'] if call['trim'] is None else call['trim']
         status, per_rule, dir_keys = expected_population(
-            root, case['rules'], trim)
+            plain_root, case['rules'], trim)
         # what was visible before (for the conflict clause)
         before = {}
         for produced in per_rule:
@@ -279,15 +303,20 @@ def _run(case, desper, res, tmp):
             kwargs['nest_on_conflict'] = call['nest']
         if call['trim'] is not None:
             kwargs['trim_extensions'] = call['trim']
-        if call['root_by_arg'] or call['root'] != 0:
+        if call['root_by_arg'] or call['root'] != 0 or spelling:
             kwargs['root'] = root
+        cwd = os.getcwd()
         try:
+            if spelling in ('relative', 'dot_relative'):
+                os.chdir(parent)
             pop(rmap, **kwargs)
             outcome = 'ok'
         except ValueError:
             outcome = 'ValueError'
         except Exception as ex:
             outcome = f'{type(ex).__name__}: {ex}'
+        finally:
+            os.chdir(cwd)
         res.stats['populations'] += 1
         res.tags['outcome'].add(outcome.split(':')[0])
         if outcome != status:
